@@ -364,6 +364,10 @@ Definition sax_escape (s : str) : str :=
   replace_chr c_lt e_lt (replace_chr c_gt e_gt (replace_chr c_amp e_amp s)).
 (* XmlEventWriter's XMLGenerator subclass: characters() = escape(content, {"\r": "&#13;"}) *)
 Definition sax_escape_text (s : str) : str := replace_chr 13 e_cr (sax_escape s).
+(* the generator subclass's startPrefixMapping: escape(uri, entities) with entities for
+   LF, CR, TAB and the double quote, in that order *)
+Definition sax_escape_uri (s : str) : str :=
+  replace_chr c_quot e_quot (replace_chr 9 e_tab (replace_chr 13 e_cr (replace_chr 10 e_nl (sax_escape s)))).
 Definition sax_quoteattr (s : str) : str :=
   let d := replace_chr 9 e_tab (replace_chr 13 e_cr (replace_chr 10 e_nl (sax_escape s))) in
   if mem c_quot d then
@@ -433,7 +437,7 @@ Definition nstep (s : nstate) (c : sax) : nstate + perr :=
   match c with
   | SStartPrefix p u =>
       inl {| n_saved := n_cur s :: n_saved s; n_cur := nc_set (n_cur s) u p;
-             n_undecl := n_undecl s ++ [(p, u)]; n_pend := n_pend s; n_out := n_out s |}
+             n_undecl := n_undecl s ++ [(p, sax_escape_uri u)]; n_pend := n_pend s; n_out := n_out s |}
   | SEndPrefix _ =>
       match n_saved s with
       | c0 :: rest => inl {| n_saved := rest; n_cur := c0; n_undecl := n_undecl s; n_pend := n_pend s;
@@ -735,9 +739,8 @@ Definition value_texts (v : wvalue) : list str :=
 (* an attribute value as add_attribute sees it *)
 Definition attr_conv (a : qname * wvalue) : wvalue := attr_value_conv (fst a) (snd a).
 
-(* -- clause: names are XML names, namespace names are plain ------------------------ *)
-Definition uri_char_ok (c : N) : bool :=
-  is_xml_char c && negb (mem c [c_amp; c_lt; c_quot; 9; 10; 13; c_rbrace]).
+(* -- clause: names are XML names, namespace names are XML text without '}' ---------- *)
+Definition uri_char_ok (c : N) : bool := is_xml_char c && negb (c =? c_rbrace).
 Definition uri_ok (u : str) : bool :=
   match u with [] => false | _ => forallb uri_char_ok u && negb (str_eqb u ns_xmlns) end.
 Definition ouri_ok (u : option str) : bool := match u with Some u' => uri_ok u' | None => true end.
